@@ -82,8 +82,8 @@ def build(registered):
         }, {
             "name": "tlaps-proof",
             "path": "/verif/spec/tlaps",
-            "serves_properties": ["C01", "C02"],
-            "kind_free_text": "machine-checked TLAPS proof of Spec => []IndInv (feasibility + bookkeeping) for arbitrary finite job/machine sets, lengths, durations and machine sets",
+            "serves_properties": ["C01", "C02", "C19"],
+            "kind_free_text": "machine-checked TLAPS proofs: DispatcherProof.tla - Spec => []IndInv (feasibility + bookkeeping) for arbitrary finite job/machine sets, lengths, durations and machine sets (264 obligations); GeneratorIterProof.tla - a pass over a generator yields exactly the limit, for every limit and call sequences of any length (32 obligations)",
         }, {
             "name": "apalache-inductive",
             "path": "/verif/spec/apalache",
